@@ -88,11 +88,11 @@ func Flatten(evs []Event) []Event {
 	return out
 }
 
-func Admin(r dbmodel.Req) Event        { return Event{Kind: "admin", Req: &r} }
-func Tx(ops ...dbmodel.RowOp) Event    { return Event{Kind: "tx", Ops: ops} }
+func Admin(r dbmodel.Req) Event          { return Event{Kind: "admin", Req: &r} }
+func Tx(ops ...dbmodel.RowOp) Event      { return Event{Kind: "tx", Ops: ops} }
 func Abandon(ops ...dbmodel.RowOp) Event { return Event{Kind: "abandon", Ops: ops} }
-func Persist() Event                   { return Event{Kind: "persist"} }
-func Reopen() Event                    { return Event{Kind: "reopen"} }
+func Persist() Event                     { return Event{Kind: "persist"} }
+func Reopen() Event                      { return Event{Kind: "reopen"} }
 
 func (e Event) String() string {
 	switch e.Kind {
@@ -403,9 +403,9 @@ type IdxObs struct {
 	Cols     []string
 	Fk       FkObs // Table "" if none
 	FkToHere []FkObs
-	Rows     []string // rendered logical rows in index order
+	Rows     []string   // rendered logical rows in index order
 	Keys     [][]string // index column values of each row in index order
-	Size     int64    // sum of record lengths read through this index
+	Size     int64      // sum of record lengths read through this index
 }
 
 type TableObs struct {
@@ -570,8 +570,8 @@ func eqStrs(a, b []string) bool {
 // compact: dropped-column placeholders are gone and (after load) the index
 // order may differ.
 type CompareOpts struct {
-	Squeezed       bool // "-" columns removed
-	AnyIndexOrder  bool
+	Squeezed      bool // "-" columns removed
+	AnyIndexOrder bool
 }
 
 // CompareObs compares an observation with the model; it returns the list of
